@@ -66,7 +66,9 @@ CHECKS = {
          "reorders their token groups and changes nothing else; named consumers search the whole scope and take the leftmost "
          "match; a flag's value does not depend on position; positional consumers skip named items. FULL for conventional flat "
          "levels: C03_order_irrelevant_flat -- the outcome depends on the vector only through each item's own occurrence sequence "
-         "and the positional word sequence (via C01's refinement theorem). For parsers outside the conventional fragment the "
+         "and the positional word sequence (via C01's refinement theorem); for whole conventional subcommand trees "
+         "C03_outcome_depends_on_reading_tree -- two specified vectors the grammar reads alike are both accepted with the same "
+         "value or both reported on stderr (via C01_conformance). For parsers outside the conventional fragment the "
          "whole-run invariance under the constrained permutations is decided by the "
          "metamorphic oracle (random constrained permutations of generated sentences) and the differential run." + DIFF,
          "4/C03", "Rocq proof of the two mechanisms (partial) over a hand-written model + differential correspondence + permutation oracle"),
